@@ -123,7 +123,7 @@ class C03(Prop):
         return t, kind
 
     def _case(self, rng, typ):
-        g = G.rgeom(rng, typ)
+        g = G.rgeom(rng, typ, holes=rng.random() < 0.6)  # rings beyond the first (holes) must be validated too
         tree = g["coordinates"]
         if typ in ("LineString",) and rng.random() < 0.3:
             tree = list(reversed(tree))
